@@ -295,3 +295,18 @@ def _scan_types(src, out):
                     fs = []
                 variants.append((vname, fs))
             out.setdefault(name, ("enum", variants))
+
+
+def foreign_types(crate_prefix, relpath):
+    """type definitions of a dependency, read from the cargo registry copy that Cargo.lock
+    pins (so that field / variant order is not hard-coded): -> {Name: (kind, data)}"""
+    import glob
+    lock = open(os.path.join(REPO, "Cargo.lock")).read()
+    m = re.search(r'name = "%s"\nversion = "([^"]+)"' % re.escape(crate_prefix), lock)
+    ver = m.group(1) if m else "*"
+    c = sorted(glob.glob(os.path.expanduser("~/.cargo/registry/src/*/%s-%s/%s" % (crate_prefix, ver, relpath))))
+    if not c:
+        raise RuntimeError("source of %s %s not in the cargo registry" % (crate_prefix, ver))
+    out = {}
+    _scan_types(open(c[0]).read(), out)
+    return out
